@@ -40,6 +40,9 @@ def concretise(c, rnd):
         pos = 'cxy="10 6"' if (c["anchor"] == "c" and rnd.random() < 0.5) else \
             ('xy="10 6"' + ("" if c["anchor"] == "tl" else f' xy-loc="{c["anchor"]}"'))
         size = 'wh="2 4"'
+        if k == "circle":
+            size = rnd.choice(['wh="2"', 'r="1"', 'wh="2 2"', 'width="2" height="2"'])
+            d = rnd.choice([d, f'dwh="{v.split()[0]}"'])
         if k == "ellipse":
             size = rnd.choice(['wh="2 4"', 'rxy="1 2"', 'rx="1" ry="2"', 'width="2" height="4"'])
         return f'<svg><{k} id="s" {pos} {size} {d}/></svg>'
